@@ -98,8 +98,10 @@ def encode(fmt, code, marker, reac, prod, a, b, c, idx, tmin=1.0, tmax=99999.0):
         fa, fb, fc = fit(a, 8), fit(b, 9), fit(c, 10)
         if None in (fa, fb, fc):
             return None
+        if not 0 <= idx < 100000:
+            return None  # the I5 index column cannot carry it
         reacs = list(reac) + ([marker] if marker else [])
-        s = f"{idx % 100000:<5d}"
+        s = f"{idx:<5d}"
         s += "".join(f"{x:<10}" for x in reacs + [""] * (3 - len(reacs)))
         s += "".join(f"{x:<10}" for x in list(prod) + [""] * (5 - len(prod)))
         s += f"{fa:>8}{fb:>9}{fc:>10}{int(tmin):5d}{int(tmax):5d}{int(code):3d}"
